@@ -15,7 +15,14 @@ HC = 'mchap.assemble.haplotype_calling.call_posterior_haplotypes'
 AP = 'mchap.application.assemble.program.call_sample_genotypes'
 
 
+def rule_threshold(ctx):
+    from .c14 import exact_threshold_on_sum
+    exact_threshold_on_sum(ctx, 'mchap.assemble.haplotype_calling.call_posterior_haplotypes', 'R13.5/exact-threshold-on-sum',
+                           "the occurrence probability is compared with the threshold with a tolerance or from counts")
+
+
 def run(ctx):
+    rule_threshold(ctx)
     f = ctx.func(HC)
     r = ctx.recon(HC)
     # haps, weights, probs = post.allele_frequencies(dosage=True); idx = probs >= threshold
